@@ -118,6 +118,8 @@ def int_binop(eng, op, a, b, st):
         if a.op == 'int' and b.op == 'int':
             return [(st, VInt(I(a.args[0] | b.args[0])))]
         r = t.app('bor', t.INT, a, b)
+        # ground fact true of |: the result of two byte values is a byte value
+        st.assume(t.implies(t.and_(t.le(t.ZERO, a), t.lt(a, I(256)), t.le(t.ZERO, b), t.lt(b, I(256))), t.and_(t.le(t.ZERO, r), t.lt(r, I(256)))))
         for x, y in ((a, b), (b, a)):
             k = mult_of_pow2(x)
             if k > 0:
